@@ -167,6 +167,32 @@ RECEIVER_EFFECT = {
     "tokio::sync::oneshot::Sender::<T>::send": "oneshot_send",
 }
 
+# atomics of every width (nightly spells AtomicUsize / AtomicBool / .. as Atomic::<T>)
+for _w in ("u8", "u16", "u32", "u64", "usize", "i8", "i16", "i32", "i64", "isize", "bool"):
+    for _op, _k in (("fetch_add", "atomic_rmw"), ("fetch_sub", "atomic_rmw"), ("fetch_max", "atomic_rmw"), ("fetch_min", "atomic_rmw"),
+                    ("fetch_and", "atomic_rmw"), ("fetch_or", "atomic_rmw"), ("fetch_xor", "atomic_rmw"), ("fetch_nand", "atomic_rmw"),
+                    ("fetch_update", "atomic_rmw"), ("compare_exchange", "atomic_rmw"), ("compare_exchange_weak", "atomic_rmw"),
+                    ("swap", "atomic_rmw"), ("store", "atomic_store"), ("load", "atomic_load")):
+        RECEIVER_EFFECT.setdefault("std::sync::atomic::Atomic::<%s>::%s" % (_w, _op), _k)
+
+# BTreeMap mirrors HashMap; entry adapters that hand out `&mut V` are views of the map
+for _t in (RECEIVER_EFFECT,):
+    for _k, _v in list(_t.items()):
+        if _k.startswith("std::collections::HashMap::<K, V, S, A>::"):
+            _t.setdefault(_k.replace("std::collections::HashMap::<K, V, S, A>::", "std::collections::BTreeMap::<K, V, A>::"), _v)
+        if _k.startswith("std::collections::hash_map::"):
+            _b = _k.replace("std::collections::hash_map::", "std::collections::btree_map::")
+            _t.setdefault(_b, _v)
+            _t.setdefault(_k.replace("<'a, K, V, A>", "<'a, K, V>"), _v)
+            _t.setdefault(_b.replace("<'a, K, V, A>", "<'a, K, V>"), _v)
+RECEIVER_EFFECT.setdefault("std::collections::BTreeMap::<K, V, A>::pop_first", "remove")
+RECEIVER_EFFECT.setdefault("std::collections::BTreeMap::<K, V, A>::pop_last", "remove")
+RECEIVER_EFFECT.setdefault("std::collections::BTreeMap::<K, V, A>::split_off", "remove")
+RECEIVER_EFFECT.setdefault("std::collections::BTreeMap::<K, V, A>::append", "insert")
+RECEIVER_EFFECT.setdefault("std::collections::BTreeMap::<K, V, A>::first_key_value", "read")
+RECEIVER_EFFECT.setdefault("std::collections::BTreeMap::<K, V, A>::last_key_value", "read")
+RECEIVER_EFFECT.setdefault("std::collections::BTreeMap::<K, V, A>::range", "read")
+
 INSERT_KINDS = {"insert", "insert_back", "insert_front", "insert_any"}
 REMOVE_KINDS = {"remove", "remove_front", "remove_back", "remove_any", "take"}
 MUTATING_KINDS = INSERT_KINDS | REMOVE_KINDS | {"clear", "reorder", "write", "atomic_rmw", "atomic_store"}
@@ -197,6 +223,16 @@ HANDLES = {
 }
 
 # element-of: the result is (an iterator over / an element of) the receiver
+for _k in list(HANDLES):
+    if _k.startswith("std::collections::HashMap::<K, V, S, A>::"):
+        HANDLES.add(_k.replace("std::collections::HashMap::<K, V, S, A>::", "std::collections::BTreeMap::<K, V, A>::"))
+    if _k.startswith("std::collections::hash_map::"):
+        HANDLES.add(_k.replace("std::collections::hash_map::", "std::collections::btree_map::"))
+for _e in ("std::collections::hash_map::Entry", "std::collections::btree_map::Entry"):
+    for _g in ("<'a, K, V, A>", "<'a, K, V>"):
+        for _m in ("or_insert", "or_insert_with", "or_insert_with_key", "or_default", "and_modify"):
+            HANDLES.add("%s::%s::%s" % (_e, _g, _m))
+
 ELEMENTS = {
     "std::collections::HashMap::<K, V, S, A>::values", "std::collections::HashMap::<K, V, S, A>::iter",
     "std::collections::HashMap::<K, V, S, A>::keys", "std::collections::HashMap::<K, V, S, A>::get",
